@@ -13,27 +13,23 @@ theorem sliceSeq_length (s : List Char) (a b : Int) (h0 : 0 ≤ a) (h1 : a ≤ b
   simp only [List.length_drop, List.length_take]
   omega
 
-theorem rotOK_unpack (L k : Int) (l : Loc) (h : rotOK L k l = true) :
-    ∃ s, (∀ p ∈ l.parts, p.strand = s) ∧ chainFree (rotPieces L k l) = true := by
-  unfold rotOK at h
-  simp only [Bool.and_eq_true] at h
-  obtain ⟨h1, h2⟩ := h
-  split at h1
-  · cases h1
+theorem oneStrand_unpack (l : Loc) (h : oneStrand l = true) : ∃ s, ∀ p ∈ l.parts, p.strand = s := by
+  unfold oneStrand at h
+  split at h
+  · cases h
   · rename_i p ps hps
-    refine ⟨p.strand, ?_, h2⟩
+    refine ⟨p.strand, ?_⟩
     intro q hq
     rw [hps] at hq
     rcases List.mem_cons.1 hq with rfl | hq
     · rfl
-    · have := List.all_eq_true.1 h1 q hq
+    · have := List.all_eq_true.1 h q hq
       simpa using this
 
 /-- what `wfInput` says about one feature when the region runs over the origin -/
-def CrossOK (rd : RegionData) (L : Int) (l : Loc) : Prop :=
-  (bridgesOrigin l = true → twoPart L l = true ∨
-    (l.len ≠ L ∧ rotOK L (-rd.start) l = true ∧ rotOK L (L - rd.start) l = true)) ∧
-  (bridgesOrigin l = false → l.len ≤ l.end - l.start ∧ rotOK L (L - rd.start) l = true)
+def CrossOK (L : Int) (l : Loc) : Prop :=
+  (bridgesOrigin l = true → twoPart L l = true ∨ (l.len ≠ L ∧ oneStrand l = true)) ∧
+  (bridgesOrigin l = false → l.len ≤ l.end - l.start ∧ oneStrand l = true)
 
 /-- unpacking `wfInput` -/
 theorem wf_unpack (rd : RegionData) (rec : BioRecord) (h : wfInput rd rec = true) :
@@ -41,7 +37,7 @@ theorem wf_unpack (rd : RegionData) (rec : BioRecord) (h : wfInput rd rec = true
     (rd.crossesOrigin = true → 0 < rd.end ∧ rd.end ≤ rd.start ∧ rd.start < rec.length) ∧
     (rd.crossesOrigin = false → 0 ≤ rd.start ∧ rd.end ≤ rec.length) ∧
     ∀ f ∈ rec.features, (f.loc.parts ≠ [] ∧ ∀ p ∈ f.loc.parts, PartIn rec.length p) ∧
-      (rd.crossesOrigin = true → CrossOK rd rec.length f.loc) := by
+      (rd.crossesOrigin = true → CrossOK rec.length f.loc) := by
   unfold wfInput at h
   simp only [Bool.and_eq_true, decide_eq_true_eq, List.all_eq_true] at h
   obtain ⟨⟨hL, hreg⟩, hf⟩ := h
@@ -70,7 +66,7 @@ theorem wf_unpack (rd : RegionData) (rec : BioRecord) (h : wfInput rd rec = true
         simp only [if_true, Bool.or_eq_true, Bool.and_eq_true, decide_eq_true_eq] at hs
         rcases hs with hs | hs
         · exact .inl hs
-        · exact .inr ⟨hs.1.1, hs.1.2, hs.2⟩
+        · exact .inr hs
       · intro hb
         rw [hb] at hs
         simp only [Bool.false_eq_true, if_false, Bool.and_eq_true, decide_eq_true_eq] at hs
@@ -121,13 +117,13 @@ theorem cross_len (rd : RegionData) (rec : BioRecord) (he0 : 0 < rd.end) (hes : 
 /-- what `offset_location` with `-start` makes of a feature running over the origin, after the whole-record
     adjustment: the rotated bases -/
 theorem cross_rotated (rd : RegionData) (L : Int) (l : Loc) (hL : 0 < L) (hst0 : 0 < rd.start) (hstL : rd.start < L)
-    (hne : l.parts ≠ []) (hparts : ∀ p ∈ l.parts, PartIn L p) (hb : bridgesOrigin l = true) (hok : CrossOK rd L l) :
+    (hne : l.parts ≠ []) (hparts : ∀ p ∈ l.parts, PartIn L p) (hb : bridgesOrigin l = true) (hok : CrossOK L l) :
     ∃ r, offsetLocation l (-rd.start) L = .ok r ∧
       ∀ i, (wholeFix L r).mem i = true ↔ (0 ≤ i ∧ i < L ∧ l.mem ((rd.start + i) % L) = true) := by
-  rcases hok.1 hb with htwo | ⟨hlen, hr1, _⟩
+  rcases hok.1 hb with htwo | ⟨hlen, hr1⟩
   · exact twoPart_offset L rd.start l htwo hst0 hstL
-  · obtain ⟨s, hs, hcf⟩ := rotOK_unpack L _ l hr1
-    obtain ⟨r, hr, _, hrl, hmem⟩ := offset_rotates_general l (-rd.start) L s hne hparts hs (by omega) (by omega) (by omega) hlen hcf
+  · obtain ⟨s, hs⟩ := oneStrand_unpack l hr1
+    obtain ⟨r, hr, _, hrl, hmem⟩ := offset_rotates_general l (-rd.start) L s hne hparts hs (by omega) (by omega) (by omega) hlen
     refine ⟨r, hr, fun i => ?_⟩
     have hw : wholeFix L r = r := by unfold wholeFix; rw [hrl]; simp [hlen]
     rw [hw, hmem i]
@@ -153,16 +149,16 @@ theorem origin_sameBases (rd : RegionData) (rec : BioRecord) (hwf : wfInput rd r
     obtain ⟨⟨hne, hparts⟩, hok⟩ := hfeat f hf
     have hok := hok hc
     -- the feature is shorter than the record and may be rotated by `L - start`
-    have hrot : f.loc.len ≠ rec.length ∧ rotOK rec.length (rec.length - rd.start) f.loc = true := by
+    have hrot : f.loc.len ≠ rec.length ∧ oneStrand f.loc = true := by
       cases hb : bridgesOrigin f.loc with
       | false => have := hok.2 hb; exact ⟨by omega, this.2⟩
       | true =>
-        rcases hok.1 hb with htwo | ⟨hlen, _, hr2⟩
+        rcases hok.1 hb with htwo | ⟨hlen, hr2⟩
         · have := twoPart_end _ f.loc htwo hL; omega
         · exact ⟨hlen, hr2⟩
-    obtain ⟨s, hs, hcf⟩ := rotOK_unpack _ _ f.loc hrot.2
+    obtain ⟨s, hs⟩ := oneStrand_unpack f.loc hrot.2
     obtain ⟨r, hr, _, _, hmem⟩ := offset_rotates_general f.loc (rec.length - rd.start) rec.length s hne hparts hs
-      (by omega) (by omega) (by omega) hrot.1 hcf
+      (by omega) (by omega) (by omega) hrot.1
     rw [hr] at hl
     injection hl with hl
     subst hl
